@@ -10,6 +10,7 @@ pub mod index;
 pub mod laws;
 pub mod order;
 pub mod scan;
+pub mod series;
 pub mod stack;
 
 pub fn replay(property: &str, engine: &str, case: &Value) -> Result<(), String> {
@@ -23,6 +24,7 @@ pub fn replay(property: &str, engine: &str, case: &Value) -> Result<(), String> 
         "scan" => scan::replay_c04(),
         "alloc" | "alloc-log" | "alloc-stack" => alloc::replay(engine, case),
         "index" => index::replay(case),
+        "series" => series::replay(case),
         _ => Err(format!("unknown engine {engine:?} in replay file")),
     }
 }
